@@ -1,29 +1,21 @@
 import GoLevel.Proofs.LocksStepTok
 import GoLevel.Proofs.LocksStepClk
 import GoLevel.Proofs.LocksStepTrlk
-/-! The ownership accounting holds in every reachable state of the repaired configuration. -/
+/-! The ownership accounting is preserved by every step of a configuration with the three fixes, if it has
+the fourth as well or no thread executes `SetReadOnly`. -/
 namespace GoLevel.Locks
 
-theorem step_rinv (s t : St) (f : Bool) (h : Step Cfg.repaired f s t) (inv : RInv s) : RInv t :=
-  ⟨step_rinv_tok s t f h inv, step_rinv_clk s t f h inv, step_rinv_trlk s t f h inv⟩
+theorem step_rinv (cfg : Cfg) (h3 : Fixed3 cfg) (s t : St) (f : Bool)
+    (h4 : cfg.setReadOnlyReleasesOnClose = true ∨ NoSR s) (h : Step cfg f s t) (inv : RInv s) : RInv t :=
+  ⟨step_rinv_tok s t f cfg h3 h4 h inv, step_rinv_clk s t f cfg h3 h4 h inv, step_rinv_trlk s t f cfg h3 h4 h inv⟩
 
-theorem init_rinv (n : Nat) : RInv (init n) := by
+theorem rinv_of_idle (s : St) (n : Nat) (hw : s.ws = List.replicate n .idle) (h1 : s.tok = false)
+    (h2 : s.clk = false) (h3 : s.trlk = false) (h4 : s.trOpen = false) (h5 : s.ehTok = false)
+    (h6 : s.closeTok = false) (h7 : s.mc = .idle) (h8 : s.tc = .idle) : RInv s := by
   refine ⟨?_, ?_, ?_⟩
-  · show tot tokW (List.replicate n .idle) + 0 + 0 + 0 = 0
-    rw [tot_replicate_idle _ _ rfl]
-  · show tot clkW (List.replicate n .idle) + 0 + 0 = 0
-    rw [tot_replicate_idle _ _ rfl]
-  · show tot trlkW (List.replicate n .idle) = 0
-    rw [tot_replicate_idle _ _ rfl]
-
-theorem steps_rinv (s t : St) (h : Steps Cfg.repaired s t) (inv : RInv s) : RInv t := by
-  induction h with
-  | refl => exact inv
-  | tail _ h ih => exact step_rinv _ _ _ h ih
-
-theorem reachable_rinv (s : St) (h : Reachable Cfg.repaired s) : RInv s := by
-  obtain ⟨n, hs⟩ := h
-  exact steps_rinv _ _ hs (init_rinv n)
+  · rw [hw, tot_replicate_idle _ _ rfl, h1, h4, h5, h6]; rfl
+  · rw [hw, tot_replicate_idle _ _ rfl, h2, h7, h8]; rfl
+  · rw [hw, tot_replicate_idle _ _ rfl, h3]; rfl
 
 theorem Steps.step {cfg : Cfg} {s t u : St} {f : Bool} (h : Steps cfg s t) (h2 : Step cfg f t u) :
     Steps cfg s u := .tail h h2
